@@ -182,7 +182,12 @@ func (p *Prog) Method(pkg, typ, name string) *ssa.Function {
 	if f := p.Func(fmt.Sprintf("(*%s.%s).%s", pkg, typ, name)); f != nil {
 		return f
 	}
-	return p.Func(fmt.Sprintf("(%s.%s).%s", pkg, typ, name))
+	if f := p.Func(fmt.Sprintf("(%s.%s).%s", pkg, typ, name)); f != nil {
+		return f
+	}
+	// a method that never used its receiver may have been turned into a package-level function of the same name
+	// (or the other way round: see PkgFunc); rules that look at parameters use paramsOf, which skips a receiver
+	return p.Func(pkg + "." + name)
 }
 
 func (p *Prog) PkgFunc(pkg, name string) *ssa.Function { return p.Func(pkg + "." + name) }
